@@ -4,62 +4,16 @@ rewritten form, and the proof that the (repaired, dimension-aware) recursion
 satisfies it for every type, value and file system.
 -/
 import Martian.PostProcess
+import Martian.PostProcessDefs
 import Proofs.PostProcess
 
 namespace Martian.PostProcess
-
-/-- a file leaf becomes null, stays, or becomes a path string -/
-def LeafShape (v v' : J) : Prop := v' = .null ∨ v' = v ∨ ∃ s, v' = .str s
-
-/-- pointwise relation between two lists (same length) -/
-inductive All2 (R : J → J → Prop) : List J → List J → Prop
-  | nil : All2 R [] []
-  | cons {x y : J} {xs ys : List J} : R x y → All2 R xs ys → All2 R (x :: xs) (y :: ys)
 
 theorem All2.length_eq {R : J → J → Prop} {xs ys : List J} (h : All2 R xs ys) :
     ys.length = xs.length := by
   induction h with
   | nil => rfl
   | cons _ _ ih => simp [ih]
-
-/-- arrays of `k+1` dimensions over elements related by `R`: same lengths at
-every level; anything that is not an array (null included) is unchanged -/
-def ShapeArr (R : J → J → Prop) : Nat → J → J → Prop
-  | 0, .arr xs, v' => ∃ ys, v' = .arr ys ∧ All2 R xs ys
-  | k + 1, .arr xs, v' => ∃ ys, v' = .arr ys ∧ All2 (ShapeArr R k) xs ys
-  | _, v, v' => v' = v
-
-/-- typed maps: the keys of the result are the sorted legal keys of the input,
-each value related to the input's value for that key -/
-def ShapeMap (R : J → J → Prop) (v v' : J) : Prop :=
-  match v with
-  | .obj kvs => ∃ kvs', v' = .obj kvs' ∧
-      kvs'.map Prod.fst = sortStrings (dedup ((kvs.map Prod.fst).filter legalName)) ∧
-      ∀ kv ∈ kvs', R ((lookupLast kvs kv.1).getD .null) kv.2
-  | _ => v' = v
-
-/-- structs: the keys of the result are the sorted member ids (an absent key
-reads as null), each value related by its member's relation -/
-def ShapeStruct (RM : String → J → J → Prop) (ids : List String) (v v' : J) : Prop :=
-  match v with
-  | .obj [] => v' = .obj []
-  | .obj kvs => ∃ kvs', v' = .obj kvs' ∧ kvs'.map Prod.fst = sortStrings ids ∧
-      ∀ kv ∈ kvs', RM kv.1 ((lookupLast kvs kv.1).getD .null) kv.2
-  | _ => v' = v
-
-mutual
-/-- `Shape ty v v'`: `v'` has the shape of `v` at type `ty` -/
-def Shape : Ty → J → J → Prop
-  | .scalar, v, v' => v' = v
-  | .file _, v, v' => LeafShape v v'
-  | .arr e k, v, v' => if hasFile e then ShapeArr (Shape e) k v v' else v' = v
-  | .tmap e, v, v' => if hasFile e then ShapeMap (Shape e) v v' else v' = v
-  | .struct ms, v, v' =>
-    if hasFileMs ms then ShapeStruct (ShapeMs ms) (ms.map (·.1)) v v' else v' = v
-def ShapeMs : List (String × String × Ty) → String → J → J → Prop
-  | [], _, v, v' => v' = v
-  | (id, _, t) :: ms, k, v, v' => if id = k then Shape t v v' else ShapeMs ms k v v'
-end
 
 theorem mapIdx_forall₂ (Q : J → J → Prop) (f : Nat → J → FS → J × FS)
     (hf : ∀ i x fs, Q x (f i x fs).1) (i : Nat) (xs : List J) (fs : FS) :
@@ -202,18 +156,6 @@ end
 
 /-! ## whole records and mapped top-level calls -/
 
-/-- fields of a record value (`_outs` of one fork); anything else has none -/
-def fieldsOf : J → List (String × J)
-  | .obj kvs => kvs
-  | _ => []
-
-/-- `ShapeRec params outs r`: the rewritten record `r` has exactly the declared
-parameters whose key is present in `outs`, in declaration order, each value
-related to the input value by `Shape` at the parameter's type. -/
-def ShapeRec (params : List (String × String × Ty)) (outs r : List (String × J)) : Prop :=
-  r.map Prod.fst = (params.map (·.1)).filter (fun id => (lookupLast outs id).isSome) ∧
-  ∀ kv ∈ r, ∃ on ty v, (kv.1, on, ty) ∈ params ∧ lookupLast outs kv.1 = some v ∧ Shape ty v kv.2
-
 theorem handleOuts_shape (ps : Path) (params : List (String × String × Ty)) (outs : List (String × J))
     (outsPath : Path) (fs : FS) :
     ShapeRec params outs (handleOuts true ps params outs outsPath fs).1 := by
@@ -237,10 +179,6 @@ theorem handleOuts_shape (ps : Path) (params : List (String × String × Ty)) (o
         exact ⟨on, ty, v, List.mem_cons_self, hl, handler_shape ps ty id on v outsPath fs⟩
       · obtain ⟨on', ty', v', hm, hv, hs⟩ := h2 kv hkv
         exact ⟨on', ty', v', List.mem_cons_of_mem _ hm, hv, hs⟩
-
-/-- one fork's record (`processStructOuts`) -/
-def ShapeFork (params : List (String × String × Ty)) (x y : J) : Prop :=
-  ∃ r, y = .obj r ∧ ShapeRec params (fieldsOf x) r
 
 theorem processStructOuts_shape (ps : Path) (params : List (String × String × Ty)) (x : J)
     (outsPath : Path) (fs : FS) :
